@@ -479,6 +479,13 @@ class ThreadPool(object):
                 else:
                     with self.__lock:
                         self.__nb_active_threads += 1
+                        if self._queue.qsize() > (
+                            self.__nb_threads - self.__nb_active_threads
+                        ):
+                            # Another thread may have stopped itself while
+                            # this one was not yet considered active: ensure
+                            # that the tasks still waiting will be handled
+                            self.__start_thread()
                     # Extract elements
                     method, args, kwargs, future = task
                     try:
